@@ -327,7 +327,7 @@ CHECKS["C12"] = {
             "start-up and restore), or while idle; after each death the file is read back (complete JSON document, equal to the model "
             "before or after the command in flight, equal to the model in force when none was) and the next incarnation's `list` must "
             "show the same configuration. Non-trivial there = the kill landed while a command was in flight.",
-    "layers": [L("TestVF_C12", 500, 6000), L("TestVF_C12_Kill", 12, 150, shards=16, qshards=8, pkg="cmd", binary=True)],
+    "layers": [L("TestVF_C12", 500, 6000, qtimeout=180), L("TestVF_C12_Kill", 12, 150, shards=16, qshards=8, pkg="cmd", binary=True)],
     "technique": "crash-point enumeration driven by property-based testing (rapid): every step boundary of every generated command's snapshot write, with generated interleavings of overlapping writers; plus real SIGKILLs of the built binary at generated syscall boundaries (strace fault injection) across restarts",
     "level_text": "Every step boundary of the snapshot write of every generated command is visited (enumeration inside each case); histories and interleavings are sampled. The process-kill layer samples kill instants at syscall granularity.",
     "level_note": "In-process layer: a killed process is modelled as 'the file as it is at a step boundary'. Process layer: real kills at syscall entry (needs ptrace; without it every case is counted as excluded and the layer decides nothing). Torn writes inside a single write(2), fsync and power loss are outside the statement.",
